@@ -774,7 +774,8 @@ def build_scene(tm, name):
         s.add_geometry(tet(), node_name="t1", geom_name="t1", transform=_M(None, [5, 0, 0]))
         s.add_geometry(tm.PointCloud([[0, 0, 0], [1, 2, 3], [-4, 5, 6.5]], colors=[[255, 0, 0, 255], [0, 255, 0, 255], [0, 0, 255, 255]]),
                        node_name="pc", geom_name="cloud", transform=_M(RZ, [0, 0, 7]))
-        seg = np.array([[[0, 0, 0], [1, 0, 0]], [[1, 0, 0], [1, 2, 5]]], dtype=float)
+        # two polylines that do not touch
+        seg = np.array([[[0, 0, 0], [1, 0, 0]], [[1, 0, 0], [1, 2, 5]], [[4, 0, 0], [4, 2, 0.5]]], dtype=float)
         s.add_geometry(tm.path.Path3D(**tm.path.exchange.misc.lines_to_path(seg)), node_name="pth", geom_name="path", transform=_M(None, [0, -3, 0]))
     elif name == "list_ctor":
         s = tm.Scene([box(), tet()])
@@ -812,7 +813,8 @@ def scene_parts(tm, s):
             for d in path_polylines(g):
                 d3 = d if d.shape[1] == 3 else np.column_stack((d, np.zeros(len(d))))
                 d3 = tm.transform_points(d3, T)
-                segs.append(np.stack((d3[:-1], d3[1:]), axis=1))
+                sg = np.stack((d3[:-1], d3[1:]), axis=1)
+                segs.append(sg[(sg[:, 0] != sg[:, 1]).any(axis=1)])      # a repeated point is not a segment
     cat = lambda x, shape: np.concatenate(x) if x else np.zeros(shape)  # noqa
     return cat(tris, (0, 3, 3)), cat(pts, (0, 3)), cat(segs, (0, 2, 3))
 
